@@ -4,6 +4,8 @@ Shared by the `schema` group (C15, C11, C12) and reusable by the `xsd` group (C1
 The scenario JSON format is documented in notes/C15.md (top) and in specs/Constraints.tla (header).
 
     scn = {"kind": "str"|"bytes"|"list"|"cprim"|"listcprim"|"enum", "opt": bool, "wmt": bool,
+           "porder": [] | permutation of 1..len(prim): order in which P1.. are written in the file,
+           "impl": 0 | k: class Ck (a leaf) is @implementation_specific (documents only),
            "shape": "chain" | "dia_ab" | "dia_ba"  (diamond C1<-C2, C1<-C3, C4(C2,C3) / C4(C3,C2); cls has 4 levels),
            "cls":  [[atom, ...] per class C1..Ck (k = depth 1..3)],
            "prim": [[atom, ...] per constrained primitive P1..Pj (j = 0..2)]}
@@ -25,14 +27,23 @@ from typing import Any, Dict, List, Optional, Sequence
 # ---------------------------------------------------------------------------------------------
 
 #: id -> "literal": the exact text between the quotes of the Python string literal in the meta-model source;
-#:       "allowed": the code points the pattern ^[...]*$ allows (Constraints.tla: PatAllowed)
+#:       "ranges": the inclusive code-point ranges the pattern ^[...]*$ allows (Constraints.tla: PatRanges)
 PATTERNS: Dict[str, Dict[str, Any]] = {
-    "ab": {"literal": "^[ab]*$", "allowed": [97, 98]},
-    "bc": {"literal": "^[bc]*$", "allowed": [98, 99]},
-    "b": {"literal": "^b*$", "allowed": [98]},
-    "bmpx": {"literal": "^[b\\\\xe9]*$", "allowed": [98, 233]},  # the *regex* contains the escape \\xe9
-    "astral": {"literal": "^[b\\U0001F600]*$", "allowed": [98, 0x1F600]},  # the regex contains the character U+1F600
+    "ab": {"literal": "^[ab]*$", "ranges": [[97, 98]]},
+    "bc": {"literal": "^[bc]*$", "ranges": [[98, 99]]},
+    "b": {"literal": "^b*$", "ranges": [[98, 98]]},
+    "bmpx": {"literal": "^[b\\\\xe9]*$", "ranges": [[98, 98], [233, 233]]},  # the *regex* contains the escape \\xe9
+    "astral": {"literal": "^[b\\U0001F600]*$", "ranges": [[98, 98], [0x1F600, 0x1F600]]},  # the regex contains U+1F600 itself
+    # astral ranges whose UTF-16 form spans 1 / 2 / exactly 3 / 8 high surrogates
+    "ar1": {"literal": "^[b\\U00010000-\\U0001000F]*$", "ranges": [[98, 98], [0x10000, 0x1000F]]},
+    "ar2": {"literal": "^[b\\U00010005-\\U00010405]*$", "ranges": [[98, 98], [0x10005, 0x10405]]},
+    "ar3": {"literal": "^[b\\U00010000-\\U00010BFF]*$", "ranges": [[98, 98], [0x10000, 0x10BFF]]},
+    "ar8": {"literal": "^[b\\U000101D0-\\U00011FFF]*$", "ranges": [[98, 98], [0x101D0, 0x11FFF]]},
 }
+#: character ids of the document cases (ConstraintsDocs.tla: CharCP)
+CHAR_CP = {"a": 97, "b": 98, "c": 99, "eacute": 233, "grin": 0x1F600, "u10000": 0x10000, "u1000f": 0x1000F, "u10005": 0x10005,
+           "u103ff": 0x103FF, "u10400": 0x10400, "u10405": 0x10405, "u107ff": 0x107FF, "u10800": 0x10800, "u10bff": 0x10BFF,
+           "u101d0": 0x101D0, "u10c00": 0x10C00, "u11bff": 0x11BFF, "u11fff": 0x11FFF}
 #: the pattern text as the front end sees it (the value of the literal)
 PATTERN_TEXT = {k: ast.literal_eval('"' + v["literal"] + '"') for k, v in PATTERNS.items()}
 
@@ -50,13 +61,13 @@ def selfcheck_library() -> List[str]:
     import itertools
 
     bad = []
-    alphabet = sorted({c for v in PATTERNS.values() for c in v["allowed"]})
+    alphabet = sorted(set(CHAR_CP.values()))
     for pid, v in PATTERNS.items():
         rx = re.compile(PATTERN_TEXT[pid])
-        for n in range(0, 4):
+        for n in range(0, 3):
             for tup in itertools.product(alphabet, repeat=n):
                 s = "".join(chr(c) for c in tup)
-                spec = all(c in v["allowed"] for c in tup)
+                spec = all(any(lo <= c <= hi for lo, hi in v["ranges"]) for c in tup)
                 real = rx.match(s) is not None
                 if spec != real:
                     bad.append("%s on %r: spec %s, re %s" % (pid, s, spec, real))
@@ -143,8 +154,12 @@ def scenario_mm(scn: Dict[str, Any]) -> Dict[str, Any]:
         else:
             items.append({"kind": "raw", "text": "%s: Set[Color] = constant_set(values=[%s])\n" % (sid, ", ".join("Color.%s" % ENUM_NAME_OF_VALUE[v] for v in ENUM_SETS[sid]))})
     pbase = scn.get("pbase", "str")
+    prim_items = []
     for j, lvl in enumerate(scn["prim"], start=1):
-        items.append({"kind": "cprim", "name": "P%d" % j, "base": pbase if j == 1 else "P%d" % (j - 1), "invs": [{"expr": atom_expr(a, "self"), "desc": "P%d inv %d" % (j, n)} for n, a in enumerate(lvl)]})
+        prim_items.append({"kind": "cprim", "name": "P%d" % j, "base": pbase if j == 1 else "P%d" % (j - 1), "invs": [{"expr": atom_expr(a, "self"), "desc": "P%d inv %d" % (j, n)} for n, a in enumerate(lvl)]})
+    # the constrained primitives in their order of declaration in the file (a child may stand above its parent)
+    porder = scn.get("porder") or list(range(1, len(prim_items) + 1))
+    items.extend(prim_items[j - 1] for j in porder)
     depth = len(scn["cls"])
     props = [{"name": "x", "type": x_type(scn)}]
     if needs_n(scn):
@@ -159,6 +174,7 @@ def scenario_mm(scn: Dict[str, Any]) -> Dict[str, Any]:
             "props": props if k == 1 else [],
             "invs": [{"expr": atom_expr(a, "self.x"), "desc": "C%d inv %d" % (k, n)} for n, a in enumerate(lvl)],
             "wmt": True if (k == 1 and (depth > 1 or scn.get("wmt"))) else None,
+            "impl": bool(scn.get("impl")) and scn.get("impl") == k,
         }
         items.append(it)
     items.append({"kind": "class", "name": "Something", "props": [{"name": "inner", "type": "C1"}], "invs": []})
